@@ -69,17 +69,23 @@ void remove_duplicate_include()
                if (std::strcmp(next->Text(), current->Text()) == 0)
                {
                   // erase the statement
-                  Chunk *temp    = pc;
-                  Chunk *comment = next->GetNext();
-                  Chunk *eol     = next->GetNextNl();
+                  Chunk *temp = pc;
+                  Chunk *eol  = next->GetNextNl();
                   pc = preproc->GetPrev();
                   Chunk::Delete(preproc);
                   Chunk::Delete(temp);
+
+                  // the whole rest of the line goes, whatever follows the file
+                  // name: a comment left behind would swallow the next line
+                  Chunk *rest = next->GetNext();
                   Chunk::Delete(next);
 
-                  if (comment != eol)
+                  while (  rest->IsNotNullChunk()
+                        && rest != eol)
                   {
-                     Chunk::Delete(comment);
+                     Chunk *trailing = rest;
+                     rest = rest->GetNext();
+                     Chunk::Delete(trailing);
                   }
                   Chunk::Delete(eol);
                   break;
